@@ -589,7 +589,11 @@ def sdiv(a, b):
 
 
 def upow(a, p):
-    return _pow(a, p)
+    r = _pow(a, p)
+    c = Ctx.cur
+    if c is not None:
+        c.assume(z3.Implies(a > 0, r > 0))   # x > 0  =>  x**p > 0 for every real p
+    return r
 
 
 def ssqrt(x):
